@@ -60,7 +60,7 @@ def assigned_in_elem(cfg, e):
     return out
 
 
-def find_guard(tu, f, access, idx, length, bound):
+def find_guard(tu, f, access, idx, length, bound, _depth=0):
     """a dominating test that establishes idx + length <= bound on the path to the access, with no assignment to the
     variables involved in between.  Returns a description or None."""
     cfg = f.cfg
@@ -79,6 +79,29 @@ def find_guard(tu, f, access, idx, length, bound):
             continue
         lhs, rhs = F.src(c['c'][0]), F.strip(c['c'][1])
         k = F.const_value(rhs)
+        via = ''
+        if k is None and lhs in (want, want2) and rhs['k'] == 'DeclRefExpr' and rhs.get('dk') in ('local', 'param') and _depth < 1:
+            # idx + len <= V: enough when V + (something unsigned) <= K is established on the same path
+            import re as _re
+            for B2 in cfg.blocks.values():
+                if B2.cond is None or len(B2.succs) != 2:
+                    continue
+                c2 = F.strip(B2.cond)
+                if c2['k'] != 'BinaryOperator' or c2['op'] != '>':
+                    continue
+                k2 = F.const_value(F.strip(c2['c'][1]))
+                l2 = F.strip(c2['c'][0])
+                if k2 is None or k2 > bound or l2['k'] != 'BinaryOperator' or l2['op'] != '+':
+                    continue
+                if rhs['n'] not in (F.src(F.strip(l2['c'][0])), F.src(F.strip(l2['c'][1]))):
+                    continue
+                ok2 = B2.succs[1]
+                if ok2 is not None and (ok2 == ab or cfg.dominates(ok2, ab, idom)):
+                    # the bounding variable must not change between its own test and the access either
+                    k = k2
+                    via = ' through %s <= %s (line %d)' % (rhs['n'], F.src(c2), c2['l'])
+                    vs = vs | {rhs['n']}
+                    break
         if k is None or lhs not in (want, want2):
             continue
         # which successor is the "within bounds" one
@@ -114,7 +137,7 @@ def find_guard(tu, f, access, idx, length, bound):
                 break
         if clobber:
             continue
-        return '%s (line %d), bound %d <= array length %d' % (F.src(c), c['l'], k, bound)
+        return '%s (line %d)%s, bound %d <= array length %d' % (F.src(c), c['l'], via, k, bound)
     return None
 
 
@@ -613,4 +636,53 @@ def rf13h(run):
                           'the length is not zero: hashing zero bytes changes the hash, the other side does not hash an empty buffer, and a '
                           'complete unmodified stream whose length is 0 or a multiple of the buffer length is reported as damaged' % (lt, how),
                           line=node['l'])
+    return n
+
+
+# ---------------------------------------------------------------------------------------------
+# RF88: the users of the compression layer take its verdict and let it see the end of the stream
+# ---------------------------------------------------------------------------------------------
+
+def rf88(run):
+    rule = 'RF88'
+    run.rule(rule, 'mir.c, binary reader and writer: the results of reduce_decode_finish / reduce_encode_finish (the layer\'s verdict: check '
+                   'hash, complete stream) are tested, not dropped; and before the decoder is finished in MIR_read_with_func it is asked '
+                   'once more for a byte (reduce_decode_get), because the end element with the check hash is still unread when the data '
+                   'fill the decoder\'s last buffer exactly - the raw reader must not be consulted for "end of file" before that')
+    tu = run.tu('mir')
+    n = 0
+    for f in tu.func_list:
+        if not f.file.endswith('/mir.c'):
+            continue
+        for x in f.walk():
+            if x['k'] == 'CallExpr' and x.get('callee') in ('reduce_decode_finish', 'reduce_encode_finish'):
+                run.functions_analysed.add(('mir', f.name))
+                par = f.nodes[f.parent[x['i']]] if f.parent.get(x['i']) is not None else None
+                used = par is not None and par['k'] not in ('CompoundStmt',)
+                n += 1
+                run.ob(rule, (f.name, x['callee']), used, {'site': '%s:%d %s' % (f.relfile(), x['l'], f.name), 'call': x['callee'], 'result tested': used})
+                if not used:
+                    run.violation(rule, f, 'result of %s dropped' % x['callee'], '%s ignores the result of %s: a stream whose check hash does not match '
+                                  '(or an output error) goes unreported' % (f.name, x['callee']), line=x['l'])
+                if x['callee'] == 'reduce_decode_finish':
+                    cfg = f.cfg
+                    idom = cfg.dominators()
+                    fb = cfg.block_of(x)
+                    drains = [cfg.block_of(y) for y in f.walk() if y['k'] == 'CallExpr' and y.get('callee') == 'reduce_decode_get']
+                    raws = [y for y in f.walk() if y['k'] == 'CallExpr' and y.get('callee') is None and F.src(F.strip(y['c'][0])) == 'reader']
+                    drained = any(d is not None and (d == fb or cfg.dominates(d, fb, idom)) for d in drains)
+                    raw_before = [y for y in raws if cfg.block_of(y) is not None and (cfg.block_of(y) == fb or cfg.dominates(cfg.block_of(y), fb, idom))
+                                  and y['l'] < x['l']]
+                    n += 1
+                    ok = drained and not raw_before
+                    run.ob(rule, (f.name, 'drain'), ok, {'decoder asked for the end before finishing': drained,
+                                                         'raw reader consulted first at lines': [y['l'] for y in raw_before]})
+                    if not ok:
+                        run.violation(rule, f, 'end of the compressed stream', '%s %s: for an image whose uncompressed length is a multiple of the '
+                                      'decoder buffer the end element (check hash) is still in the stream after the last token and a valid '
+                                      'file is reported as having garbage at its end' %
+                                      (f.name, 'asks the raw reader for EOF before the decoder has consumed its end element' if raw_before else
+                                       'finishes the decoder without asking it for the end of data'), line=x['l'])
+    if n < 3:
+        raise F.AnalysisBroken('compression layer finish calls not found in mir.c')
     return n
